@@ -76,6 +76,199 @@ def prepare(ctx):
     gen_prepare(ctx, GEN_THEOREMS + extra_theorems("ftrans2"), ftrans2.COVERS + '; FusionART.category_choice / match_criterion_bin with skip_channels, the W property and get_channel_position_tuples (ftrans -> ArtGen/Fusion.lean) = choiceSkip / the conjunction over the channels not skipped / fusedW of ArtModel/Fusion.lean')
 
 
+def ref_argmax(f, Q, S, off):
+    """per query row: the first arg-max of the gamma-weighted activations of the channels not in S, recomputed from the
+    modules alone; None where float rounding of the sum could decide (same exclusion as the main oracle)"""
+    gam_ = f.params["gamma_values"]
+    ncat = len(f.W)
+    out = []
+    for q in range(Q.shape[0]):
+        T, terms = [], []
+        with quiet():
+            for c in range(ncat):
+                tl = [float(m.category_choice(Q[q, off[j]:off[j + 1]], m.W[c], m.params)[0]) * gam_[j]
+                      for j, m in enumerate(f.modules) if j not in S]
+                terms.append(tl)
+                T.append(sum(tl))
+        best = sorted(range(ncat), key=lambda c: (-T[c], c))[0]
+        close_ = [c for c in range(ncat) if c != best and abs(T[c] - T[best]) < 1e-9 * (1 + abs(T[best]))
+                  and terms[c] != terms[best]]
+        out.append(None if close_ else best)
+    return out
+
+
+def shared_selectors(ctx, G):
+    """One process, several trained FusionART models with *different* channel counts, and ONE selector list object
+    (a caller-held `last = [-1]`, or the default `target_channels` of predict_regression) handed to every entry point
+    of every model in turn.  The property is per model: each model resolves the selector against its own channel
+    count (the withheld columns are the model's own, the regression value is the centre of the model's own target
+    channel), whatever other model saw the same list before; and the list the caller holds is still the list it wrote."""
+    cov = ctx.cov
+    for i in range(G):
+        r = gen.rng_for(ctx.seed, "C11-shared", i)
+        ks = r.sample([2, 3, 4], r.choice([2, 2, 3]))          # distinct channel counts, in random order
+        M = []
+        rep = {"channel_counts": ks, "models": []}
+        try:
+            for k in ks:
+                cls, ds, sp, dims, gam = gen_channels(r, k, k)
+                n = limit_n(sp, r.randint(4, 12))
+                Xc = channel_data(r, cls, ds, n)
+                X = np.hstack(Xc)
+                spec = fusion_spec(sp, dims, gam)
+                f = make(spec)
+                set_identity_bounds(f, cls, ds)
+                with quiet():
+                    f.fit(X)
+                nq = r.randint(2, 5)
+                Qc = [np.vstack([A[[r.randrange(n)]] if r.random() < 0.5 else B[[j]] for j in range(nq)])
+                      for A, B in zip(Xc, channel_data(r, cls, ds, nq))]
+                M.append(dict(k=k, cls=cls, ds=ds, dims=dims, spec=spec, f=f, Qc=Qc, Q=np.hstack(Qc), nq=nq,
+                              off=np.cumsum([0] + dims), centres=[m.get_cluster_centers() for m in f.modules]))
+                rep["models"].append({"spec": spec, "classes": cls, "X": X, "query": np.hstack(Qc)})
+        except Exception as e:
+            ctx.issue("violation", f"FusionART.fit:{exc_enum(e)}", f"fit raised {e!r}", rep)
+            continue
+        kmin = min(ks)
+        want_neg = r.random() < 0.8
+        while True:      # one spelling, meaningful for every model: a proper, duplicate-free subset of each one's channels
+            sel = r.sample(range(-kmin, kmin), r.randint(1, kmin - 1))
+            if all(len({t + k if t < 0 else t for t in sel}) == len(sel) for k in ks) and \
+                    (not want_neg or any(t < 0 for t in sel)):
+                break
+        orig = list(sel)
+        rep["selector"] = orig
+        cov.case(("shared", tuple(ks), tuple(orig), tuple(m["Q"].tobytes() for m in M)),
+                 any(len(m["f"].W) >= 2 for m in M))
+        cov.hit("shared-selector:" + ("negative-index" if any(t < 0 for t in orig) else "positive-only"))
+        cov.hit(f"shared-selector:models={len(ks)}")
+        rewritten = False
+
+        def after(entry, mi):
+            nonlocal rewritten
+            if sel != orig and not rewritten:
+                rewritten = True
+                ctx.issue("violation", f"FusionART.{entry}:caller-selector-list-rewritten",
+                          f"the caller's selector list {orig} reads {sel} after {entry}(..., {orig}) of the "
+                          f"{ks[mi]}-channel model (model #{mi} of channel counts {ks})", dict(rep, after_entry=entry, model=mi))
+
+        for mi, m in enumerate(M):
+            f, k, cls, ds, off, Q, Qc, nq = m["f"], m["k"], m["cls"], m["ds"], m["off"], m["Q"], m["Qc"], m["nq"]
+            S = sorted(t + k if t < 0 else t for t in orig)   # what the selector means for THIS model
+            rp = dict(rep, model=mi, own_channels=S)
+            entries = ["predict", "predict_regression", "join/split", "prepare/restore", "predict_regression(default)"]
+            r.shuffle(entries)
+            try:
+                with quiet():
+                    lab = [int(v) for v in f.predict(Q, skip_channels=list(S))]     # fresh list, positive indices
+                    lab_last = [int(v) for v in f.predict(Q, skip_channels=[k - 1])]
+            except Exception as e:
+                ctx.issue("violation", f"FusionART.predict:skip:{exc_enum(e)}", f"predict raised {e!r} with skip {S}", rp)
+                continue
+            for entry in entries:
+                try:
+                    if entry == "predict":
+                        preds = []
+                        for t in range(2):
+                            Qf = Q.copy()
+                            for j in S:
+                                Qf[:, off[j]:off[j + 1]] = ((1.0 if cls[j] == "ART1" else 0.5) if t == 0
+                                                            else valid_filler(r, cls[j], ds[j], nq, True))
+                            with quiet():
+                                preds.append([int(v) for v in f.predict(Qf, skip_channels=sel)])
+                            after("predict", mi)
+                        ref = ref_argmax(f, Q, S, off)
+                        if preds[0] != preds[1]:
+                            ctx.issue("violation", "FusionART.predict:shared-selector:depends-on-skipped-columns",
+                                      f"selector {orig} (own channels {S} of {k}), used before with models of "
+                                      f"{ks[:mi]} channels: labels {preds} for two valid fillers", rp)
+                        elif any(b is not None and a != b for a, b in zip(preds[0], ref)):
+                            ctx.issue("violation", "FusionART.predict:shared-selector:not-argmax-of-own-remaining-channels",
+                                      f"selector {orig} (own channels {S} of {k}), used before with models of "
+                                      f"{ks[:mi]} channels: labels {preds[0]}, arg-max of the remaining channels {ref}", rp)
+                        else:
+                            cov.hit("shared-selector:predict-ok")
+                    elif entry in ("predict_regression", "predict_regression(default)"):
+                        dflt = entry.endswith("(default)")
+                        with quiet():
+                            out = f.predict_regression(Q) if dflt else f.predict_regression(Q, target_channels=sel)
+                        if not dflt:
+                            after("predict_regression", mi)
+                        tn = [k - 1] if dflt else [t + k if t < 0 else t for t in orig]
+                        labs = lab_last if dflt else lab
+                        exp = [np.array([m["centres"][j][c] for c in labs]) for j in tn]
+                        if len(tn) == 1:
+                            okr = not isinstance(out, list) and np.array_equal(np.asarray(out), exp[0], equal_nan=True)
+                        else:
+                            okr = isinstance(out, list) and len(out) == len(exp) and all(
+                                np.array_equal(np.asarray(a), b, equal_nan=True) for a, b in zip(out, exp))
+                        if not okr:
+                            ctx.issue("violation", "FusionART.predict_regression:default-target:!=last-channel-centre" if dflt
+                                      else "FusionART.predict_regression:shared-selector:!=own-target-centre",
+                                      (f"predict_regression(X) of the {k}-channel model (after models of {ks[:mi]} channels, and the models of earlier cases, were "
+                                       f"queried the same way)" if dflt else f"targets {orig} (own channels {tn} of {k}), list used "
+                                       f"before with models of {ks[:mi]} channels") +
+                                      ": values differ from the target-channel centres of the predicted categories", rp)
+                        else:
+                            cov.hit("shared-selector:regression-default-ok" if dflt else "shared-selector:regression-ok")
+                    elif entry == "join/split":
+                        data = [Qc[j] for j in range(k) if j not in S]
+                        with quiet():
+                            J = f.join_channel_data(data, skip_channels=sel)
+                        after("join_channel_data", mi)
+                        with quiet():
+                            back = f.split_channel_data(J, skip_channels=sel)
+                        after("split_channel_data", mi)
+                        okj = len(back) == len(data) and all(np.array_equal(a, b) for a, b in zip(back, data))
+                        okj = okj and J.shape == Q.shape and all(
+                            np.all(J[:, off[j]:off[j + 1]] == 0.5) if j in S else np.array_equal(J[:, off[j]:off[j + 1]], Qc[j])
+                            for j in range(k))
+                        if not okj:
+                            ctx.issue("violation", "FusionART.join/split:shared-selector:not-inverse-on-supplied-channels",
+                                      f"selector {orig} (own channels {S} of {k}), used before with models of {ks[:mi]} "
+                                      f"channels: split(join(data)) != data or the supplied channels are not at their own columns", rp)
+                        else:
+                            cov.hit("shared-selector:join-split-ok")
+                    else:
+                        raw = []
+                        for j in range(k):
+                            if cls[j] == "ART1":
+                                base, lo, sc = gen.binary_rows(r, 3, ds[j], allow_zero=True), 0.0, 1.0
+                            else:
+                                base = gen.grid_rows(r, 3, ds[j], style="uniform")
+                                lo, sc = r.choice([0.0, -2.0, 10.0]), r.choice([1.0, 4.0, 0.5])
+                            base[0, :] = 0.0
+                            base[1, :] = 1.0
+                            raw.append(lo + sc * base)
+                        g = make(m["spec"])
+                        with quiet():
+                            P = g.prepare_data([None if j in S else raw[j] for j in range(k)], skip_channels=sel)
+                        after("prepare_data", mi)
+                        with quiet():
+                            R = g.restore_data(P, skip_channels=sel)
+                        after("restore_data", mi)
+                        kept = [j for j in range(k) if j not in S]
+                        okp = len(R) == len(kept) and all(
+                            np.shape(a) == raw[j].shape and np.allclose(a, raw[j], rtol=1e-12, atol=1e-12) for a, j in zip(R, kept))
+                        if not okp:
+                            ctx.issue("violation", "FusionART.prepare/restore:shared-selector:not-inverse-on-supplied-channels",
+                                      f"selector {orig} (own channels {S} of {k}), used before with models of {ks[:mi]} "
+                                      f"channels: restored data differ from the supplied channels", dict(rp, raw=raw))
+                        else:
+                            cov.hit("shared-selector:prepare-restore-ok")
+                except Exception as e:
+                    if entry.endswith("(default)"):
+                        ctx.issue("violation", f"FusionART.predict_regression:default-target:{exc_enum(e)}",
+                                  f"predict_regression(X) of the {k}-channel model (after models of {ks[:mi]} channels, and the models of earlier cases, were "
+                                  f"queried the same way): raised {e!r}", rp)
+                    else:
+                        ctx.issue("violation", f"FusionART.{entry}:shared-selector:{exc_enum(e)}",
+                                  f"selector {orig} (own channels {S} of {k}), the same list object used before with models "
+                                  f"of {ks[:mi]} channels: raised {e!r}", rp)
+        if not rewritten:
+            cov.hit("shared-selector:caller-list-intact")
+
+
 def run(ctx):
     cov = ctx.cov
     ctx.assumptions += [
@@ -302,6 +495,7 @@ def run(ctx):
             metas.append(("hist", i, hist_calls, dict(rep, query=Q)))
         if i < 2:
             cov.sample({"classes": cls, "dims": dims, "gamma": gam, "ncat": ncat, "query_rows": nq})
+    shared_selectors(ctx, ctx.scale(60, 600))
     outs = run_driver(lines)
     for line, out, (kind, i, exp, rp) in zip(lines, outs, metas):
         rp = dict(rp, line=line, model=out)
